@@ -26,7 +26,7 @@ pub fn table_specs() -> Vec<TableSpec> {
     vec![
         TableSpec { name: "users", path: "users_tab", protected: true, size: 30, cols: vec![
             u("id", ColTy::Int(0, 50)), c("age", ColTy::Int(18, 90)), c("city", ColTy::TextVals(vec!["Paris", "Lyon", "Nice"])),
-            c("income", ColTy::Float(0.0, 1000.0)), c("score", ColTy::OptFloat(0.0, 10.0))] },
+            u("income", ColTy::Float(0.0, 1000.0)), c("score", ColTy::OptFloat(0.0, 10.0))] },
         TableSpec { name: "orders", path: "orders_tab", protected: true, size: 60, cols: vec![
             u("id", ColTy::Int(0, 200)), c("user_id", ColTy::Int(0, 50)), c("amount", ColTy::Float(0.0, 500.0)),
             c("status", ColTy::TextVals(vec!["new", "paid", "sent"]))] },
